@@ -285,6 +285,8 @@ def rule_reach_whole_dag(ctx: Ctx) -> None:
 
 
 def run(ctx: Ctx) -> None:
+    from .c13 import rule_rewrite_order
+    rule_rewrite_order(ctx)
     from ..rules import order as _order
     _order.rule_sequence_source(ctx, [("graphiq/circuit/circuit_dag.py", "CircuitDAG.to_json"), ("graphiq/circuit/circuit_dag.py", "CircuitDAG._slim_seq"), ("graphiq/circuit/circuit_base.py", "CircuitBase.to_openqasm")])
     rule_reach_whole_dag(ctx)
